@@ -206,6 +206,65 @@ def _constructor_cases(_):
     return out
 
 
+def _shape(t, ba):
+    par, bs, dummies = [], [], []
+    for node in t.node_list:
+        par.append(-1 if node.parent is None else t.node_idx[node.parent])
+        row = []
+        for b in node.basis_sets:
+            if isinstance(b, ba.BasisDummy):
+                row.append(0)
+                dummies.append(b.dof[-1] if isinstance(b.dof, tuple) else None)
+            elif isinstance(b.dof, tuple) and b.dof[0] == "Q":
+                d = b.dof[1]
+                row.append(-int(d[0] if isinstance(d, (list, tuple)) else d))
+            else:
+                row.append(int(b.dof))
+        bs.append(row)
+    return par, bs, dummies
+
+
+def _builder_shape_cases(cases):
+    """TreeBuilders.tla -> code: every tree emitted by TLC is compared node by node (preorder parent vector, basis sets per node,
+    numbering of the virtual nodes) with the tree the real constructor returns for the same arguments.  The shape of a
+    builder's tree is not one of the listed properties (any tree gives the same operator, which the dense comparisons decide),
+    so a mismatch is reported as SPEC-DRIFT; a tree that loses or repeats a basis set is a violation in _constructor_cases."""
+    bootstrap()
+    from renormalizer.tn import BasisTree
+    from renormalizer.model import basis as ba
+    out = {"cases": [], "drift": [], "rejected_corrupted": 0}
+    for c in cases:
+        cid = f"shape/{c['builder']}/n{c['n']}/k{c['k']}/{int(bool(c['contract']))}/{''.join(map(str, c['lab']))}/{c['phase']}"
+        out["cases"].append(cid)
+        try:
+            bl = [ba.BasisHalfSpin(i) for i in range(1, c["n"] + 1)]
+            b = c["builder"]
+            if b == "linear":
+                t = BasisTree.linear(bl)
+            elif b == "binary":
+                t = BasisTree.binary(bl)
+            elif b == "t3ns":
+                t = BasisTree.t3ns(bl)
+            else:
+                t = BasisTree.general_mctdh(bl, c["k"], contract_primitive=bool(c["contract"]), contract_label=[bool(x) for x in c["lab"]] or None)
+            if c["phase"] == "aux":
+                t = t.add_auxiliary_space()
+            par, bs, dummies = _shape(t, ba)
+        except Exception as e:
+            out["drift"].append((f"C02:shape:{c['builder']}:raises", f"{cid}: {type(e).__name__}: {e}", {"case": c}))
+            continue
+        exp_par, exp_bs = list(c["par"]), [list(r) for r in c["basis"]]
+        if c.get("_corrupted"):
+            out["rejected_corrupted"] += int((par, bs) != (exp_par, exp_bs))
+            continue
+        if (par, bs) != (exp_par, exp_bs):
+            out["drift"].append((f"C02:shape:{c['builder']}", f"{cid}: the constructed tree is not the tree of TreeBuilders.tla: parents {par} basis {bs}, "
+                                 f"specified parents {exp_par} basis {exp_bs}", {"case": c, "par": par, "basis": bs}))
+        elif dummies != list(range(len(dummies))):
+            out["drift"].append((f"C02:shape:{c['builder']}:virtual-numbering", f"{cid}: virtual nodes are not numbered in preorder: {dummies}", {"case": c}))
+    return out
+
+
 def _param_history_cases(args):
     """Several operators built in ONE process on the same degrees of freedom and basis sizes but different basis parameters
     (a frequency / displacement scan): every construction must use the matrices of ITS basis sets."""
@@ -255,6 +314,50 @@ def _param_history_cases(args):
             except Exception as e:
                 out["viol"].append((f"C02:parameter-history:raises:{type(e).__name__}", f"{type(e).__name__}: {e}", detail))
     return out
+
+
+SHAPE_INVS = ["IsPreorder", "AllOnce", "KeepsOrder", "Arity", "MctdhLeaves", "Contracted", "LabelRespected", "MctdhDepth", "AuxPairs"]
+
+
+def _builder_shapes(ctx):
+    """TreeBuilders.tla: design claims on every argument combination inside the bounds, the recorded deviation (must fail),
+    and the emitted trees replayed into the real constructors."""
+    consts = dict(MaxN=8, MaxK=4) if ctx.tier == "quick" else dict(MaxN=11, MaxK=4)
+    r = tlc.run("TreeBuilders", tlc.make_cfg(constants=consts, spec="Spec", invariants=SHAPE_INVS), vacuity=True, timeout=3000)
+    ctx.add_tlc(r, f"TreeBuilders {consts}: linear/binary/t3ns/mctdh (all contraction labels) + auxiliary space")
+    if r["violated"]:
+        ctx.violation(f"C02:spec:TreeBuilders:{r['violated']}", "TreeBuilders violates " + r["violated"], {"tlc": (r.get("error_text") or "")[:2000]})
+    r = tlc.run("TreeBuilders", tlc.make_cfg(constants=dict(MaxN=6, MaxK=3), spec="Spec", invariants=["NoDummyLeaf"]), timeout=600, expect_violation=True)
+    ctx.add_tlc(r, "recorded deviation (must fail): general_mctdh creates childless virtual nodes")
+    if r["violated"] != "NoDummyLeaf":
+        raise MachineryError("TreeBuilders: NoDummyLeaf was expected to fail (4 elementary nodes, order 3)")
+    e = tlc.run("TreeBuilders", tlc.make_cfg(constants=consts, spec="Spec", invariants=["EmitTree"]), mode="emit", timeout=3000)
+    ctx.add_tlc(e, "emit builder trees")
+    cases = e["emitted"]
+    if len(cases) < 100:
+        raise MachineryError("TreeBuilders emitted too few trees")
+    import copy
+    bad = []
+    for c in cases[:: max(1, len(cases) // 40)]:
+        if len(c["par"]) >= 3:
+            b = copy.deepcopy(c)
+            b["_corrupted"] = True
+            b["par"][-1] = b["par"][-1] - 1 if b["par"][-1] > 0 else b["par"][-1] + 1
+            bad.append(b)
+    n = 16
+    allc = cases + bad
+    rejected = 0
+    for st_, o in pmap(_builder_shape_cases, [allc[i::n] for i in range(n) if allc[i::n]], chunksize=1):
+        if st_ != "ok":
+            raise MachineryError("builder-shape worker failed: " + o)
+        for c in o["cases"]:
+            ctx.case(fingerprint=c, nontrivial=True)
+        for key, what, detail in o["drift"]:
+            ctx.drift(key, what, detail)
+        rejected += o["rejected_corrupted"]
+    if rejected != len(bad):
+        raise MachineryError(f"binding demonstration failed: {len(bad) - rejected} corrupted builder trees were accepted")
+    ctx.notes["builder_shape_binding_demo"] = {"corrupted_copies": len(bad), "rejected": rejected}
 
 
 def run(ctx):
@@ -321,6 +424,7 @@ def run(ctx):
         ctx.case(fingerprint=c, nontrivial=True)
     for key, what, detail in o["viol"]:
         ctx.violation(key, what, detail)
+    _builder_shapes(ctx)
     if not traces:
         raise MachineryError("no symbolic TTNO exported for TLC")
     B = 1500
